@@ -18,6 +18,8 @@ def gen(rng, tier):
     ctx.enabled = G.swarm_subset(rng, names, 0.7, always=("from_array", "rechunk", "getitem", "binary"))
     ctx.weights = {"random": 0.5, "rechunk": 5.0, "getitem": 6.0, "from_array": 5.0, "binary": 3.0, "map_blocks": 1.5}
     ctx.p_auto_chunks = rng.choice([0.2, 0.5, 0.8])
+    ctx.p_random_twin = 0.5
+    ctx.weights["random"] = rng.choice([0.5, 4.0, 12.0])
     ctx.p_simsource = rng.choice([0.0, 0.3])
     ctx.p_untokenizable = rng.choice([0.0, 0.3])
     ctx.leaf_damp = rng.choice([0.15, 0.4])
@@ -28,6 +30,12 @@ def gen(rng, tier):
         lf = rng.choice(leaves)
         if lf not in targets:
             targets.insert(rng.randrange(len(targets) + 1), lf)
+    # twins (identically seeded generators, other chunking) and same-spec siblings must meet in one process
+    rnd = [s_["out"] for s_ in recipe["steps"] if s_["op"] == "random"]
+    if len(rnd) >= 2 and rng.random() < 0.8:
+        for v in rnd[:4]:
+            if v not in targets:
+                targets.append(v)
     knobs = {"slice_limit": rng.choice([None, 0, 64, 4096])}
     cfg_keys = ["array.chunk-size", "array.unify-chunks-policy", "array.unify-chunks-limit", "array.rechunk.threshold",
                 "array.rechunk.degree-limit", "array.optimize-graph"]
